@@ -101,3 +101,23 @@ Theorem C07_trust_anchor_by_subject : forall store subj c,
     Forall (fun x => get_details_ok x = true /\ c_subject x <> subj) pre.
 Proof. exact trust_anchor_by_subject. Qed.
 Print Assumptions C07_trust_anchor_by_subject.
+
+(* signature algorithm identifiers: "verifies under its public key" is reachable only through
+   "declares sm2sign-with-sm3 AND the SM2 signature verifies" (it is a conjunct of [issued_by] inside
+   [valid_chain]); stated on its own, for every setting of the repairs *)
+Theorem C07_non_sm2_algorithm_never_verifies : forall c ca,
+  c_outer_alg c <> AlgSM2 -> verify_by_ca c ca = false.
+Proof. exact non_sm2_algorithm_never_verifies. Qed.
+Print Assumptions C07_non_sm2_algorithm_never_verifies.
+
+Theorem C07_accepted_chain_is_sm2_signed : forall f now r depth store chain,
+  certs_verify f now r depth store chain = true ->
+  Forall (fun c => c_outer_alg c = AlgSM2 /\ c_inner_alg c = AlgSM2) chain.
+Proof. exact accepted_chain_is_sm2_signed. Qed.
+Print Assumptions C07_accepted_chain_is_sm2_signed.
+
+Theorem C07_other_algorithm_rejected : forall f now r depth store chain c,
+  In c chain -> (c_outer_alg c <> AlgSM2 \/ c_inner_alg c <> AlgSM2) ->
+  certs_verify f now r depth store chain = false.
+Proof. exact other_algorithm_rejected. Qed.
+Print Assumptions C07_other_algorithm_rejected.
